@@ -117,7 +117,8 @@ def cases(sh, tier):
         v0, v1 = py(vals[0]), py(vals[-1])
         n = vals.size
         mask = [(i * 3 + 1) % 4 == 0 for i in range(n)]
-        for what in (["scalar", v0], ["list", [v0, v1]], ["scalar", -12345], ["mask", mask], ["dimask", mask], ["mixed", [v1, mask]]):
+        for what in (["scalar", v0], ["list", [v0, v1]], ["scalar", -12345], ["mask", mask], ["dimask", mask], ["mixed", [v1, mask]],
+                     ["list", []], ["list", [v1]], ["maskfirst", [mask, v1, v0]], ["dimaskfirst", [mask, v0]]):
             yield {"a": s, "op": "setna", "what": what, "inplace": inplace}
 
 
@@ -243,11 +244,20 @@ def check(case):
                 impl_arg = np.array(arg, dtype=bool).reshape(vals.shape)
                 if kind == "dimask":
                     impl_arg = DimArray(impl_arg, axes=[ax.copy() for ax in a.axes])
+            elif kind in ("maskfirst", "dimaskfirst"):     # a list whose FIRST element is the mask, followed by values
+                sel = [arg[0][i] or any(same_scalar(v, w) and not common.isnan(v) for w in arg[1:]) for i, v in enumerate(flatv)]
+                m0 = np.array(arg[0], dtype=bool).reshape(vals.shape)
+                if kind == "dimaskfirst":
+                    m0 = DimArray(m0, axes=[ax.copy() for ax in a.axes])
+                impl_arg = [m0] + list(arg[1:])
             else:
                 sel = [(same_scalar(v, arg[0]) and not common.isnan(v)) or arg[1][i] for i, v in enumerate(flatv)]
                 impl_arg = [arg[0], np.array(arg[1], dtype=bool).reshape(vals.shape)]
             newv = float("nan")
+            arg_before = common.snap(impl_arg)
             got = call(a.setna, impl_arg, inplace=case["inplace"])
+            if common.snap(impl_arg) != arg_before:
+                return bad("setna({}, inplace={}) modified the value / mask argument passed to it".format(kind, case["inplace"]))
             what = "setna({}, inplace={})".format(case["what"][0], case["inplace"])
         out = np.array(vals, dtype=float if (op == "setna" and any(sel)) or vals.dtype.kind == "f" else vals.dtype)
         flat = out.reshape(-1)
